@@ -175,3 +175,706 @@ def gemv(a):
                 noop=quick,
                 type_rejects=[z3.And(nq, a.scalar_bad('alpha', A.id)),
                               z3.And(nq, a.scalar_bad('beta', A.id))])
+
+
+# ========================================================================
+# helpers shared by the rows below
+#
+# Conventions taken from the doc strings:
+#   "If negative, the default value is used"      -> dflt(v, default)
+#   "If zero, the default value is used" (ld*)    -> ldflt(v, default)
+# Zero dimensions: where the doc string says "returns immediately" that is
+# the row's `noop`; where it is silent, `noop` is "the documented output view
+# is empty" (the operation is vacuous).  Requirements on ld*/offset*/buffer
+# lengths (and checks the wrappers are documented to make on defaulted
+# dimensions) describe the *addressed* data, so they are mandatory reasons
+# for rejection only when something is addressed: they carry the guard
+# `not noop`.  Flag alphabets and "nonzero/positive integer" are properties of
+# the argument value itself.
+def dflt(v, d):
+    return z3.If(v < 0, d, v)
+
+
+def ldflt(v, d):
+    return z3.If(v == 0, d, v)
+
+
+def vec_rejects(nm, v, off, n, inc, g=True):
+    """offset nonnegative; n elements with stride |inc| from off fit"""
+    return [('offset%s negative' % nm, off < 0, g),
+            ('%s too small' % nm,
+             z3.And(n > 0, off + (n - 1) * zabs(inc) + 1 > v.len), g)]
+
+
+def mat_rejects(nm, M, off, rows, cols, ld, g=True):
+    """offset nonnegative; rows x cols block with leading dimension ld from
+    off fits"""
+    return [('offset%s negative' % nm, off < 0, g),
+            ('%s too small' % nm,
+             z3.And(rows > 0, cols > 0,
+                    off + (cols - 1) * ld + rows > M.len), g)]
+
+
+def bad_flag(nm, v, chars):
+    return ("%s not in '%s'" % (nm, chars), z3.Not(isin(v, chars)))
+
+
+REAL = z3.IntVal(1)        # typecode term for "must be a real number"
+
+
+# ---------------------------------------------------------------- level 1
+def _two_vec(a, routine, out=False, alpha=False, need_equal=False):
+    """copy/axpy/dot/dotu: n defaults to the number of addressed elements of
+    x.  (The doc strings of copy/axpy/dot/dotu write the default with /incx
+    where swap writes /|incx|; incx may be negative, so |incx| is meant.)"""
+    x, y = a.x, a.y
+    dx = default_n(x.len, a.offsetx, a.incx)
+    n = dflt(a.n, dx)
+    rej = [('incx zero', a.incx == 0), ('incy zero', a.incy == 0)]
+    if need_equal:
+        dy = default_n(y.len, a.offsety, a.incy)
+        rej.append(('unequal default lengths', z3.And(a.n < 0, dx != dy)))
+    rej += std_vec_rejects(a, [(x, a.offsetx, a.incx, 'x'),
+                               (y, a.offsety, a.incy, 'y')], n)
+    sc, tr = {}, []
+    if alpha:
+        sc = {'alpha': a.scalar('alpha', 1)}
+        tr = [z3.And(n != 0, a.scalar_bad('alpha', x.id))]
+    calls = [Call(routine, ints={'n': n, 'incx': a.incx, 'incy': a.incy},
+                  ptrs={'x': ('x', a.offsetx), 'y': ('y', a.offsety)},
+                  scalars=sc)]
+    outs = [('y', a.offsety, vec_extent(n, a.incy))] if out else []
+    return Spec(['x', 'y'], rej, calls, outputs=outs, noop=(n == 0),
+                type_rejects=tr)
+
+
+@row('copy', 'x y n incx incy offsetx offsety')
+def copy(a):
+    return _two_vec(a, {'d': 'dcopy_', 'z': 'zcopy_'}, out=True)
+
+
+@row('axpy', 'x y alpha n incx incy offsetx offsety')
+def axpy(a):
+    return _two_vec(a, {'d': 'daxpy_', 'z': 'zaxpy_'}, out=True, alpha=True)
+
+
+def _dot(a):
+    """dot / dotu.  Real: ddot_.  Complex: composed from four ddot_ calls on
+    the real and imaginary parts (views of the double array with offsets
+    2*offset[+1] and increments 2*inc); which of the four is added or
+    subtracted distinguishes dot from dotu and is part of the value, not of
+    the call correspondence.  Returns 0 if n=0."""
+    sp = _two_vec(a, 'ddot_', need_equal=True)
+    x = a.x
+    n = sp.calls[0].ints['n']
+    sp.calls[0].when = x.id == 1
+    for px in (0, 1):
+        for py in (0, 1):
+            sp.calls.append(Call(
+                'ddot_', when=x.id == 2,
+                ints={'n': n, 'incx': 2 * a.incx, 'incy': 2 * a.incy},
+                ptrs={'x': ('x', 2 * a.offsetx + px, 8),
+                      'y': ('y', 2 * a.offsety + py, 8)}))
+    return sp
+
+
+@row('dot', 'x y n incx incy offsetx offsety')
+def dot(a):
+    return _dot(a)
+
+
+@row('dotu', 'x y n incx incy offsetx offsety')
+def dotu(a):
+    return _dot(a)
+
+
+def _one_vec(a, routine):
+    """nrm2/asum/iamax: inc positive; return 0 if n=0"""
+    x = a.x
+    n = dflt(a.n, default_n(x.len, a.offset, a.inc))
+    rej = [('inc not positive', a.inc <= 0)]
+    rej += std_vec_rejects(a, [(x, a.offset, a.inc, 'x')], n)
+    return Spec(['x'], rej,
+                [Call(routine, ints={'n': n, 'incx': a.inc},
+                      ptrs={'x': ('x', a.offset)})],
+                noop=(n == 0))
+
+
+@row('nrm2', 'x n inc offset')
+def nrm2(a):
+    return _one_vec(a, {'d': 'dnrm2_', 'z': 'dznrm2_'})
+
+
+@row('asum', 'x n inc offset')
+def asum(a):
+    return _one_vec(a, {'d': 'dasum_', 'z': 'dzasum_'})
+
+
+@row('iamax', 'x n inc offset')
+def iamax(a):
+    return _one_vec(a, {'d': 'idamax_', 'z': 'izamax_'})
+
+
+# ---------------------------------------------------------------- level 2
+@row('gbmv', 'A m kl x y trans alpha beta n ku ldA incx incy offsetA '
+     'offsetx offsety')
+def gbmv(a):
+    A, x, y = a.A, a.x, a.y
+    m, kl = a.m, a.kl                       # required, "nonnegative integer"
+    n = dflt(a.n, A.ncols)
+    ku = dflt(a.ku, A.nrows - kl - 1)       # "nonnegative integer"
+    ldA = ldflt(a.ldA, zmax(1, A.nrows))    # signature: ldA=max(1,A.size[0])
+    N = a.trans == ch('N')
+    lx = z3.If(N, n, m)
+    ly = z3.If(N, m, n)
+    # returns immediately if n=0 and trans is 'T'/'C', or m=0 and trans is
+    # 'N'; computes y := beta*y if n=0,m>0,'N' or m=0,n>0,'T'/'C'
+    quick = ly == 0
+    scal_only = z3.And(ly > 0, lx == 0)
+    nq = z3.Not(quick)
+    rej = [bad_flag('trans', a.trans, 'NTC'),
+           ('incx zero', a.incx == 0), ('incy zero', a.incy == 0),
+           ('m negative', m < 0, nq), ('kl negative', kl < 0, nq),
+           ('ku negative', ku < 0, nq),
+           ('ldA < kl+ku+1', ldA < kl + ku + 1, nq)]
+    rej += mat_rejects('A', A, a.offsetA, z3.If(z3.And(m > 0, n > 0),
+                                                kl + ku + 1, 0), n, ldA, nq)
+    rej += vec_rejects('x', x, a.offsetx, lx, a.incx, nq)
+    rej += vec_rejects('y', y, a.offsety, ly, a.incy, nq)
+    al = a.scalar('alpha', 1)
+    be = a.scalar('beta', 0)
+    return Spec(['A', 'x', 'y'], rej,
+                [Call({'d': 'dgbmv_', 'z': 'zgbmv_'},
+                      when=z3.Not(scal_only),
+                      ints={'trans': a.trans, 'm': m, 'n': n, 'kl': kl,
+                            'ku': ku, 'lda': ldA, 'incx': a.incx,
+                            'incy': a.incy},
+                      ptrs={'A': ('A', a.offsetA), 'x': ('x', a.offsetx),
+                            'y': ('y', a.offsety)},
+                      scalars={'alpha': al, 'beta': be}),
+                 # y := beta*y on the addressed view of y
+                 Call({'d': 'dscal_', 'z': 'zscal_'}, when=scal_only,
+                      ints={'n': ly},
+                      ptrs={'x': ('y', a.offsety)},
+                      scalars={'alpha': be})],
+                outputs=[('y', a.offsety, vec_extent(ly, a.incy))],
+                noop=quick,
+                type_rejects=[z3.And(nq, a.scalar_bad('alpha', A.id)),
+                              z3.And(nq, a.scalar_bad('beta', A.id))])
+
+
+def _order_n(a, A):
+    """order n of a square (symmetric/Hermitian/triangular) A: default
+    A.size[0]; "if the default value is used, we require that
+    A.size[0]=A.size[1]" """
+    n = dflt(a.n, A.nrows)
+    notsq = z3.And(a.n < 0, A.nrows != A.ncols)
+    return n, notsq
+
+
+def _symv(a, routine, ids):
+    """y := alpha*A*x + beta*y, A symmetric/Hermitian of order n"""
+    A, x, y = a.A, a.x, a.y
+    n, notsq = _order_n(a, A)
+    ldA = ldflt(a.ldA, zmax(1, A.nrows))
+    nq = n != 0
+    rej = [bad_flag('uplo', a.uplo, 'LU'),
+           ('incx zero', a.incx == 0), ('incy zero', a.incy == 0),
+           ('A is not square (default n)', notsq),
+           ('ldA < max(1,n)', ldA < zmax(1, n), nq)]
+    rej += mat_rejects('A', A, a.offsetA, n, n, ldA, nq)
+    rej += vec_rejects('x', x, a.offsetx, n, a.incx, nq)
+    rej += vec_rejects('y', y, a.offsety, n, a.incy, nq)
+    return Spec(['A', 'x', 'y'], rej,
+                [Call(routine,
+                      ints={'uplo': a.uplo, 'n': n, 'lda': ldA,
+                            'incx': a.incx, 'incy': a.incy},
+                      ptrs={'A': ('A', a.offsetA), 'x': ('x', a.offsetx),
+                            'y': ('y', a.offsety)},
+                      scalars={'alpha': a.scalar('alpha', 1),
+                               'beta': a.scalar('beta', 0)})],
+                outputs=[('y', a.offsety, vec_extent(n, a.incy))],
+                noop=(n == 0), ids=ids,
+                type_rejects=[z3.And(nq, a.scalar_bad('alpha', A.id)),
+                              z3.And(nq, a.scalar_bad('beta', A.id))])
+
+
+_SYMV_KW = 'A x y uplo alpha beta n ldA incx incy offsetA offsetx offsety'
+
+
+@row('symv', _SYMV_KW)
+def symv(a):
+    return _symv(a, {'d': 'dsymv_'}, (1,))
+
+
+@row('hemv', _SYMV_KW)
+def hemv(a):
+    return _symv(a, {'d': 'dsymv_', 'z': 'zhemv_'}, (1, 2))
+
+
+def _band(a, A):
+    """band storage: order n = A.size[1], k = max(0,A.size[0]-1) diagonals
+    beside the main one, ldA = A.size[0] >= k+1; footprint (k+1) x n"""
+    n = dflt(a.n, A.ncols)
+    k = dflt(a.k, zmax(0, A.nrows - 1))
+    ldA = ldflt(a.ldA, A.nrows)
+    return n, k, ldA
+
+
+def _sbmv(a, routine, ids):
+    """y := alpha*A*x + beta*y, A symmetric/Hermitian band"""
+    A, x, y = a.A, a.x, a.y
+    n, k, ldA = _band(a, A)
+    nq = n != 0
+    rej = [bad_flag('uplo', a.uplo, 'LU'),
+           ('incx zero', a.incx == 0), ('incy zero', a.incy == 0),
+           ('ldA < k+1', ldA < k + 1, nq)]
+    rej += mat_rejects('A', A, a.offsetA, k + 1, n, ldA, nq)
+    rej += vec_rejects('x', x, a.offsetx, n, a.incx, nq)
+    rej += vec_rejects('y', y, a.offsety, n, a.incy, nq)
+    return Spec(['A', 'x', 'y'], rej,
+                [Call(routine,
+                      ints={'uplo': a.uplo, 'n': n, 'k': k, 'lda': ldA,
+                            'incx': a.incx, 'incy': a.incy},
+                      ptrs={'A': ('A', a.offsetA), 'x': ('x', a.offsetx),
+                            'y': ('y', a.offsety)},
+                      scalars={'alpha': a.scalar('alpha', 1),
+                               'beta': a.scalar('beta', 0)})],
+                outputs=[('y', a.offsety, vec_extent(n, a.incy))],
+                noop=(n == 0), ids=ids,
+                type_rejects=[z3.And(nq, a.scalar_bad('alpha', A.id)),
+                              z3.And(nq, a.scalar_bad('beta', A.id))])
+
+
+_SBMV_KW = 'A x y uplo alpha beta n k ldA incx incy offsetA offsetx offsety'
+
+
+@row('sbmv', _SBMV_KW)
+def sbmv(a):
+    return _sbmv(a, {'d': 'dsbmv_'}, (1,))
+
+
+@row('hbmv', _SBMV_KW)
+def hbmv(a):
+    return _sbmv(a, {'d': 'dsbmv_', 'z': 'zhbmv_'}, (1, 2))
+
+
+def _tri_flags(a, trans):
+    # blas.rst and the PURPOSE sections give trans in 'N','T','C' (the
+    # argument list of doc_trmv only names 'N' or 'T')
+    return [bad_flag('uplo', a.uplo, 'LU'), bad_flag('trans', trans, 'NTC'),
+            bad_flag('diag', a.diag, 'NU')]
+
+
+def _trv(a, routine):
+    """trmv/trsv: x := op(A)*x or op(A)^{-1}*x, A triangular of order n"""
+    A, x = a.A, a.x
+    n, notsq = _order_n(a, A)
+    ldA = ldflt(a.ldA, zmax(1, A.nrows))
+    nq = n != 0
+    rej = _tri_flags(a, a.trans) + [
+        ('incx zero', a.incx == 0),
+        ('A is not square (default n)', notsq),
+        ('ldA < max(1,n)', ldA < zmax(1, n), nq)]
+    rej += mat_rejects('A', A, a.offsetA, n, n, ldA, nq)
+    rej += vec_rejects('x', x, a.offsetx, n, a.incx, nq)
+    return Spec(['A', 'x'], rej,
+                [Call(routine,
+                      ints={'uplo': a.uplo, 'trans': a.trans,
+                            'diag': a.diag, 'n': n, 'lda': ldA,
+                            'incx': a.incx},
+                      ptrs={'A': ('A', a.offsetA), 'x': ('x', a.offsetx)})],
+                outputs=[('x', a.offsetx, vec_extent(n, a.incx))],
+                noop=(n == 0))
+
+
+_TRV_KW = 'A x uplo trans diag n ldA incx offsetA offsetx'
+
+
+@row('trmv', _TRV_KW)
+def trmv(a):
+    return _trv(a, {'d': 'dtrmv_', 'z': 'ztrmv_'})
+
+
+@row('trsv', _TRV_KW)
+def trsv(a):
+    return _trv(a, {'d': 'dtrsv_', 'z': 'ztrsv_'})
+
+
+def _tbv(a, routine):
+    """tbmv/tbsv: A triangular band of order n with k sub/superdiagonals"""
+    A, x = a.A, a.x
+    n, k, ldA = _band(a, A)
+    nq = n != 0
+    rej = _tri_flags(a, a.trans) + [
+        ('incx zero', a.incx == 0),
+        ('ldA < k+1', ldA < k + 1, nq)]
+    rej += mat_rejects('A', A, a.offsetA, k + 1, n, ldA, nq)
+    rej += vec_rejects('x', x, a.offsetx, n, a.incx, nq)
+    return Spec(['A', 'x'], rej,
+                [Call(routine,
+                      ints={'uplo': a.uplo, 'trans': a.trans,
+                            'diag': a.diag, 'n': n, 'k': k, 'lda': ldA,
+                            'incx': a.incx},
+                      ptrs={'A': ('A', a.offsetA), 'x': ('x', a.offsetx)})],
+                outputs=[('x', a.offsetx, vec_extent(n, a.incx))],
+                noop=(n == 0))
+
+
+_TBV_KW = 'A x uplo trans diag n k ldA incx offsetA offsetx'
+
+
+@row('tbmv', _TBV_KW)
+def tbmv(a):
+    return _tbv(a, {'d': 'dtbmv_', 'z': 'ztbmv_'})
+
+
+@row('tbsv', _TBV_KW)
+def tbsv(a):
+    return _tbv(a, {'d': 'dtbsv_', 'z': 'ztbsv_'})
+
+
+def _ger(a, routine):
+    """A := A + alpha*x*y^H (ger) / alpha*x*y^T (geru), A m by n"""
+    A, x, y = a.A, a.x, a.y
+    m = dflt(a.m, A.nrows)
+    n = dflt(a.n, A.ncols)
+    ldA = ldflt(a.ldA, zmax(1, A.nrows))
+    quick = z3.Or(m == 0, n == 0)
+    nq = z3.Not(quick)
+    rej = [('incx zero', a.incx == 0), ('incy zero', a.incy == 0),
+           ('ldA < max(1,m)', ldA < zmax(1, m), nq)]
+    rej += mat_rejects('A', A, a.offsetA, m, n, ldA, nq)
+    rej += vec_rejects('x', x, a.offsetx, m, a.incx, nq)
+    rej += vec_rejects('y', y, a.offsety, n, a.incy, nq)
+    return Spec(['x', 'y', 'A'], rej,
+                [Call(routine,
+                      ints={'m': m, 'n': n, 'incx': a.incx, 'incy': a.incy,
+                            'lda': ldA},
+                      ptrs={'x': ('x', a.offsetx), 'y': ('y', a.offsety),
+                            'A': ('A', a.offsetA)},
+                      scalars={'alpha': a.scalar('alpha', 1)})],
+                outputs=[('A', a.offsetA, ge_extent(m, n, ldA))],
+                noop=quick,
+                type_rejects=[z3.And(nq, a.scalar_bad('alpha', A.id))])
+
+
+@row('ger', 'x y A alpha m n incx incy ldA offsetx offsety offsetA')
+def ger(a):
+    return _ger(a, {'d': 'dger_', 'z': 'zgerc_'})
+
+
+# blas.rst: geru(x, y, A[, alpha = 1.0]) and the ARGUMENTS list of doc_geru
+# put alpha directly after A; the first line of doc_geru
+# ("geru(x, y, A, m=A.size[0], n=A.size[1], alpha=1.0, ...)") disagrees with
+# both -- the manual's order is taken.
+@row('geru', 'x y A alpha m n incx incy ldA offsetx offsety offsetA')
+def geru(a):
+    return _ger(a, {'d': 'dger_', 'z': 'zgeru_'})
+
+
+def _syr(a, routine, ids, two, alpha_id=None):
+    """rank-1 (x) / rank-2 (x, y) update of a symmetric/Hermitian A of order
+    n = A.size[0].  blas.rst: a symmetric matrix of order n is an (n,n)
+    matrix; the doc strings of syr/her/syr2/her2 do not repeat the
+    "A.size[0]=A.size[1] if n defaults" sentence of symv/trmv, so a
+    non-square A with defaulted n is a permitted, not a mandatory, reason."""
+    A, x = a.A, a.x
+    n, notsq = _order_n(a, A)
+    ldA = ldflt(a.ldA, zmax(1, A.nrows))
+    nq = n != 0
+    rej = [bad_flag('uplo', a.uplo, 'LU') + (nq,),
+           ('incx zero', a.incx == 0),
+           ('A is not square (default n)', notsq, z3.BoolVal(False)),
+           ('ldA < max(1,n)', ldA < zmax(1, n), nq)]
+    rej += mat_rejects('A', A, a.offsetA, n, n, ldA, nq)
+    rej += vec_rejects('x', x, a.offsetx, n, a.incx, nq)
+    ints = {'uplo': a.uplo, 'n': n, 'incx': a.incx, 'lda': ldA}
+    ptrs = {'x': ('x', a.offsetx), 'A': ('A', a.offsetA)}
+    mats = ['x', 'A']
+    if two:
+        y = a.y
+        rej.append(('incy zero', a.incy == 0))
+        rej += vec_rejects('y', y, a.offsety, n, a.incy, nq)
+        ints['incy'] = a.incy
+        ptrs['y'] = ('y', a.offsety)
+        mats = ['x', 'y', 'A']
+    al = a.scalar('alpha', 1)
+    if alpha_id is None:
+        alpha_id = A.id
+    else:
+        al = al[0]              # "alpha real number": passed as a double
+    return Spec(mats, rej,
+                [Call(routine, ints=ints, ptrs=ptrs, scalars={'alpha': al})],
+                outputs=[('A', a.offsetA, ge_extent(n, n, ldA))],
+                noop=(n == 0), ids=ids,
+                type_rejects=[z3.And(nq, a.scalar_bad('alpha', alpha_id))])
+
+
+_SYR_KW = 'x A uplo alpha n incx ldA offsetx offsetA'
+_SYR2_KW = 'x y A uplo alpha n incx incy ldA offsetx offsety offsetA'
+
+
+@row('syr', _SYR_KW)
+def syr(a):
+    return _syr(a, {'d': 'dsyr_'}, (1,), False, alpha_id=REAL)
+
+
+@row('her', _SYR_KW)
+def her(a):
+    return _syr(a, {'d': 'dsyr_', 'z': 'zher_'}, (1, 2), False,
+                alpha_id=REAL)
+
+
+@row('syr2', _SYR2_KW)
+def syr2(a):
+    return _syr(a, {'d': 'dsyr2_'}, (1,), True)
+
+
+@row('her2', _SYR2_KW)
+def her2(a):
+    return _syr(a, {'d': 'dsyr2_', 'z': 'zher2_'}, (1, 2), True)
+
+
+# ---------------------------------------------------------------- level 3
+@row('gemm', 'A B C transA transB alpha beta m n k ldA ldB ldC offsetA '
+     'offsetB offsetC')
+def gemm(a):
+    """C := alpha*op(A)*op(B) + beta*C, C m by n, inner dimension k.
+    "If k=0, this reduces to C := beta*C": still the gemm call (reference
+    xGEMM does exactly that), with its ld requirements."""
+    A, B, C = a.A, a.B, a.C
+    NA = a.transA == ch('N')
+    NB = a.transB == ch('N')
+    m = dflt(a.m, z3.If(NA, A.nrows, A.ncols))
+    n = dflt(a.n, z3.If(NB, B.ncols, B.nrows))
+    k = dflt(a.k, z3.If(NA, A.ncols, A.nrows))
+    ldA = ldflt(a.ldA, zmax(1, A.nrows))
+    ldB = ldflt(a.ldB, zmax(1, B.nrows))
+    ldC = ldflt(a.ldC, zmax(1, C.nrows))
+    quick = z3.Or(m == 0, n == 0)
+    nq = z3.Not(quick)
+    ra, ca = z3.If(NA, m, k), z3.If(NA, k, m)      # A as stored: ra x ca
+    rb, cb = z3.If(NB, k, n), z3.If(NB, n, k)      # B as stored: rb x cb
+    rej = [bad_flag('transA', a.transA, 'NTC'),
+           bad_flag('transB', a.transB, 'NTC'),
+           ('default k: dimensions of A and B do not match',
+            z3.And(a.k < 0, k != z3.If(NB, B.nrows, B.ncols))),
+           ("ldA < max(1,(transA=='N') ? m : k)", ldA < zmax(1, ra), nq),
+           ("ldB < max(1,(transB=='N') ? k : n)", ldB < zmax(1, rb), nq),
+           ('ldC < max(1,m)', ldC < zmax(1, m), nq)]
+    rej += mat_rejects('A', A, a.offsetA, ra, ca, ldA, nq)
+    rej += mat_rejects('B', B, a.offsetB, rb, cb, ldB, nq)
+    rej += mat_rejects('C', C, a.offsetC, m, n, ldC, nq)
+    return Spec(['A', 'B', 'C'], rej,
+                [Call({'d': 'dgemm_', 'z': 'zgemm_'},
+                      ints={'transa': a.transA, 'transb': a.transB, 'm': m,
+                            'n': n, 'k': k, 'lda': ldA, 'ldb': ldB,
+                            'ldc': ldC},
+                      ptrs={'A': ('A', a.offsetA), 'B': ('B', a.offsetB),
+                            'C': ('C', a.offsetC)},
+                      scalars={'alpha': a.scalar('alpha', 1),
+                               'beta': a.scalar('beta', 0)})],
+                outputs=[('C', a.offsetC, ge_extent(m, n, ldC))],
+                noop=quick,
+                type_rejects=[z3.And(nq, a.scalar_bad('alpha', A.id)),
+                              z3.And(nq, a.scalar_bad('beta', A.id))])
+
+
+def _symm(a, routine):
+    """C := alpha*A*B + beta*C (side 'L') or alpha*B*A + beta*C ('R'); C and
+    B m by n, A symmetric/Hermitian of order m ('L') or n ('R')"""
+    A, B, C = a.A, a.B, a.C
+    L = a.side == ch('L')
+    m = dflt(a.m, B.nrows)
+    n = dflt(a.n, B.ncols)
+    ka = z3.If(L, m, n)
+    ldA = ldflt(a.ldA, zmax(1, A.nrows))
+    ldB = ldflt(a.ldB, zmax(1, B.nrows))
+    ldC = ldflt(a.ldC, zmax(1, C.nrows))
+    quick = z3.Or(m == 0, n == 0)
+    nq = z3.Not(quick)
+    rej = [bad_flag('side', a.side, 'LR'), bad_flag('uplo', a.uplo, 'LU'),
+           ("default m, side 'L': m != A.size[0] or m != A.size[1]",
+            z3.And(a.m < 0, L, z3.Or(m != A.nrows, m != A.ncols))),
+           ("default n, side 'R': n != A.size[0] or n != A.size[1]",
+            z3.And(a.n < 0, a.side == ch('R'),
+                   z3.Or(n != A.nrows, n != A.ncols))),
+           ("ldA < max(1,(side=='L') ? m : n)", ldA < zmax(1, ka), nq),
+           # B is m by n: netlib xSYMM/xHEMM require ldb >= max(1,m).  (The
+           # doc strings say "ldB >= max(1, (side == 'L') ? n : m)", which
+           # is not the requirement of the routine they describe.)
+           ('ldB < max(1,m)', ldB < zmax(1, m), nq),
+           ('ldC < max(1,m)', ldC < zmax(1, m), nq)]
+    rej += mat_rejects('A', A, a.offsetA, ka, ka, ldA, nq)
+    rej += mat_rejects('B', B, a.offsetB, m, n, ldB, nq)
+    rej += mat_rejects('C', C, a.offsetC, m, n, ldC, nq)
+    return Spec(['A', 'B', 'C'], rej,
+                [Call(routine,
+                      ints={'side': a.side, 'uplo': a.uplo, 'm': m, 'n': n,
+                            'lda': ldA, 'ldb': ldB, 'ldc': ldC},
+                      ptrs={'A': ('A', a.offsetA), 'B': ('B', a.offsetB),
+                            'C': ('C', a.offsetC)},
+                      scalars={'alpha': a.scalar('alpha', 1),
+                               'beta': a.scalar('beta', 0)})],
+                outputs=[('C', a.offsetC, ge_extent(m, n, ldC))],
+                noop=quick,
+                type_rejects=[z3.And(nq, a.scalar_bad('alpha', A.id)),
+                              z3.And(nq, a.scalar_bad('beta', A.id))])
+
+
+_SYMM_KW = ('A B C side uplo alpha beta m n ldA ldB ldC offsetA offsetB '
+            'offsetC')
+
+
+@row('symm', _SYMM_KW)
+def symm(a):
+    return _symm(a, {'d': 'dsymm_', 'z': 'zsymm_'})
+
+
+@row('hemm', _SYMM_KW)
+def hemm(a):
+    return _symm(a, {'d': 'dsymm_', 'z': 'zhemm_'})
+
+
+def _rk(a, routine, trans_ok, two, real_alpha=False, real_beta=False):
+    """rank-k (A) / rank-2k (A, B) update of the symmetric/Hermitian C of
+    order n; A (and B) n by k if trans is 'N', k by n otherwise.
+    "If k=0 this is interpreted as C := beta*C": still the BLAS call.
+    trans_ok(id) -> documented alphabet of trans."""
+    A, C = a.A, a.C
+    N = a.trans == ch('N')
+    n = dflt(a.n, z3.If(N, A.nrows, A.ncols))
+    k = dflt(a.k, z3.If(N, A.ncols, A.nrows))
+    ldA = ldflt(a.ldA, zmax(1, A.nrows))
+    ldC = ldflt(a.ldC, zmax(1, C.nrows))
+    nq = n != 0
+    ra, ca = z3.If(N, n, k), z3.If(N, k, n)
+    rej = [bad_flag('uplo', a.uplo, 'LU'),
+           # the alphabet depends on the typecode, so it is a mandatory
+           # reason only for matrices that have one of the two typecodes
+           ('trans not in the alphabet documented for the typecode',
+            z3.Not(trans_ok(A.id, a.trans)), z3.Or(A.id == 1, A.id == 2)),
+           ("ldA < max(1,(trans=='N') ? n : k)", ldA < zmax(1, ra), nq),
+           ('ldC < max(1,n)', ldC < zmax(1, n), nq)]
+    rej += mat_rejects('A', A, a.offsetA, ra, ca, ldA, nq)
+    ints = {'uplo': a.uplo, 'trans': a.trans, 'n': n, 'k': k, 'lda': ldA,
+            'ldc': ldC}
+    ptrs = {'A': ('A', a.offsetA), 'C': ('C', a.offsetC)}
+    mats = ['A', 'C']
+    if two:
+        B = a.B
+        ldB = ldflt(a.ldB, zmax(1, B.nrows))
+        rej += [('default n != ((trans==\'N\') ? B.size[0] : B.size[1])',
+                 z3.And(a.n < 0, n != z3.If(N, B.nrows, B.ncols))),
+                ('default k != ((trans==\'N\') ? B.size[1] : B.size[0])',
+                 z3.And(a.k < 0, k != z3.If(N, B.ncols, B.nrows)), nq),
+                ("ldB < max(1,(trans=='N') ? n : k)", ldB < zmax(1, ra), nq)]
+        rej += mat_rejects('B', B, a.offsetB, ra, ca, ldB, nq)
+        ints['ldb'] = ldB
+        ptrs['B'] = ('B', a.offsetB)
+        mats = ['A', 'B', 'C']
+    rej += mat_rejects('C', C, a.offsetC, n, n, ldC, nq)
+    al = a.scalar('alpha', 1)
+    be = a.scalar('beta', 0)
+    return Spec(mats, rej,
+                [Call(routine, ints=ints, ptrs=ptrs,
+                      scalars={'alpha': al[0] if real_alpha else al,
+                               'beta': be[0] if real_beta else be})],
+                outputs=[('C', a.offsetC, ge_extent(n, n, ldC))],
+                noop=(n == 0),
+                type_rejects=[
+                    z3.And(nq, a.scalar_bad(
+                        'alpha', REAL if real_alpha else A.id)),
+                    z3.And(nq, a.scalar_bad(
+                        'beta', REAL if real_beta else A.id))])
+
+
+_RK_KW = 'A C uplo trans alpha beta n k ldA ldC offsetA offsetC'
+_R2K_KW = ('A B C uplo trans alpha beta n k ldA ldB ldC offsetA offsetB '
+           'offsetC')
+
+
+# (the first line of doc_syrk/doc_herk ends "offsetA=0, offsetB=0"; there is
+# no B: the ARGUMENTS list has offsetC)
+@row('syrk', _RK_KW)
+def syrk(a):
+    # trans 'N' or 'T' (doc string and blas.rst)
+    return _rk(a, {'d': 'dsyrk_', 'z': 'zsyrk_'},
+               lambda i, t: isin(t, 'NT'), False)
+
+
+@row('herk', _RK_KW)
+def herk(a):
+    # trans 'N' or 'C'; blas.rst: "alpha and beta must be real" (doc_herk:
+    # alpha "real number", and the reference ZHERK takes both as doubles)
+    return _rk(a, {'d': 'dsyrk_', 'z': 'zherk_'},
+               lambda i, t: isin(t, 'NC'), False, real_alpha=True,
+               real_beta=True)
+
+
+@row('syr2k', _R2K_KW)
+def syr2k(a):
+    # trans 'N', 'T' or 'C' ('C' is only allowed in the real case)
+    return _rk(a, {'d': 'dsyr2k_', 'z': 'zsyr2k_'},
+               lambda i, t: z3.If(i == 1, isin(t, 'NTC'), isin(t, 'NT')),
+               True)
+
+
+# blas.rst: her2k(A, B, C[, uplo='L', trans='N', alpha=1.0, beta=0.0]); the
+# first line of doc_her2k puts alpha, beta before uplo, trans -- its ARGUMENTS
+# list and the manual agree on uplo, trans, alpha, beta; that order is taken.
+@row('her2k', _R2K_KW)
+def her2k(a):
+    # trans 'N' or 'C'; "beta real number (int or float)"
+    return _rk(a, {'d': 'dsyr2k_', 'z': 'zher2k_'},
+               lambda i, t: isin(t, 'NC'), True, real_beta=True)
+
+
+def _trm(a, routine):
+    """trmm/trsm: B := alpha*op(A)*B, alpha*B*op(A) (or with op(A)^{-1});
+    B m by n, A triangular of order m (side 'L') or n (side 'R')"""
+    A, B = a.A, a.B
+    L = a.side == ch('L')
+    m = dflt(a.m, z3.If(L, A.nrows, B.nrows))
+    n = dflt(a.n, z3.If(L, B.ncols, A.nrows))
+    ka = z3.If(L, m, n)
+    ldA = ldflt(a.ldA, zmax(1, A.nrows))
+    ldB = ldflt(a.ldB, zmax(1, B.nrows))
+    quick = z3.Or(m == 0, n == 0)
+    nq = z3.Not(quick)
+    rej = [bad_flag('side', a.side, 'LR'), bad_flag('uplo', a.uplo, 'LU'),
+           # blas.rst and PURPOSE: 'N', 'T', 'C'
+           bad_flag('transA', a.transA, 'NTC'),
+           bad_flag('diag', a.diag, 'NU'),
+           ("default m, side 'L': m != A.size[1]",
+            z3.And(a.m < 0, L, m != A.ncols)),
+           ("default n, side 'R': n != A.size[1]",
+            z3.And(a.n < 0, a.side == ch('R'), n != A.ncols)),
+           ("ldA < max(1,(side=='L') ? m : n)", ldA < zmax(1, ka), nq),
+           ('ldB < max(1,m)', ldB < zmax(1, m), nq)]
+    rej += mat_rejects('A', A, a.offsetA, ka, ka, ldA, nq)
+    rej += mat_rejects('B', B, a.offsetB, m, n, ldB, nq)
+    return Spec(['A', 'B'], rej,
+                [Call(routine,
+                      ints={'side': a.side, 'uplo': a.uplo,
+                            'transa': a.transA, 'diag': a.diag, 'm': m,
+                            'n': n, 'lda': ldA, 'ldb': ldB},
+                      ptrs={'A': ('A', a.offsetA), 'B': ('B', a.offsetB)},
+                      scalars={'alpha': a.scalar('alpha', 1)})],
+                outputs=[('B', a.offsetB, ge_extent(m, n, ldB))],
+                noop=quick,
+                type_rejects=[z3.And(nq, a.scalar_bad('alpha', A.id))])
+
+
+_TRM_KW = 'A B side uplo transA diag alpha m n ldA ldB offsetA offsetB'
+
+
+@row('trmm', _TRM_KW)
+def trmm(a):
+    return _trm(a, {'d': 'dtrmm_', 'z': 'ztrmm_'})
+
+
+@row('trsm', _TRM_KW)
+def trsm(a):
+    return _trm(a, {'d': 'dtrsm_', 'z': 'ztrsm_'})
